@@ -72,5 +72,15 @@ func buildPipeline(g *scheduler.ExecutionGraph, stages []*stageDefinition, cfg *
 		}
 	}
 
+	// every depends_on must name a stage of this pipeline (forward references are
+	// fine, which is why this is checked once all stages are known)
+	for name, stage := range g.Nodes() {
+		for _, dep := range stage.DependsOn {
+			if _, err := g.Node(dep); err != nil {
+				return nil, fmt.Errorf("stage %s depends on unknown stage %s", name, dep)
+			}
+		}
+	}
+
 	return g, nil
 }
